@@ -7,6 +7,7 @@ import numpy as np
 from .. import core, symbols
 from ..translate import etdrk as tr_etdrk
 from ..translate import linops as tr_linops
+from ..translate import wave as tr_wave
 
 ID = "C01"
 PROPS_FILE = "C01"
@@ -15,15 +16,16 @@ RULE = ("translator: every _build_linear_operator under exponax/stepper (Wave ex
         "(b) _exp_term vs exp(dt*lambda) for the linear classes, (c) Wave.step_fourier vs the extracted wave_mode at every stored mode; witness: stepper(u) vs the analytic "
         "solution of the DOCUMENTED PDE for single modes and superpositions below Nyquist (symbols recomputed in Python from the docstring formulas), n-fold vs n*dt, -dt round trip, "
         "dt up to 1e3. Non-trivial: non-constant modes; distinct by input hash.")
-TRUSTED_EXTRA = ["harness/translate/linops.py (kinds / broadcasting / einsum reading of every _build_linear_operator) and harness/translate/etdrk.py (coefficient integrands, stage programs)"]
+TRUSTED_EXTRA = ["harness/translate/linops.py (kinds / broadcasting / einsum reading of every _build_linear_operator) and harness/translate/etdrk.py (coefficient integrands, stage programs, BaseStepper plumbing as text), harness/translate/wave.py (Wave.step_fourier for one mode)"]
 ASSUMPTIONS = ["jnp.exp is the exponential; rfftn/irfftn are the DFT pair of C04", "symbol calculus for exponentials (d/dx e^{ikx} = ik e^{ikx})"]
 
 
 def translate(ctx):
     """Gen/ETDRK.v and Gen/LinOps.v (the per-mode linear symbols of every stepper class, tied to Spectral/Symbols.v by
-    Tie/LinOpsTie.v and the theorem C01_code_symbols_are_model_symbols); both are always attempted"""
+    Tie/LinOpsTie.v and the theorem C01_code_symbols_are_model_symbols), Gen/WaveGen.v (Wave.step_fourier for one mode, theorem
+    C01_code_wave_step_is_model); all are always attempted"""
     errors = []
-    for name, tr in (("etdrk", tr_etdrk), ("linops", tr_linops)):
+    for name, tr in (("etdrk", tr_etdrk), ("linops", tr_linops), ("wave", tr_wave)):
         try:
             tr.run()
         except Exception as e:
